@@ -233,11 +233,11 @@ theorem merge_resolves_one_child (H : Bytes → Bytes) (below : Bytes → Option
     collector of `p.applyEvents (mergeEvents (orderChanges changes) deletes)` (`merge_fresh`), this is `MergeResolves` for
     every parent state reachable by such runs.  Discipline proved; assumed: canonical resolvable start tree, key
     injectivity on the run's references, `orderChanges` never stuck (part of `TrieRun`). -/
-theorem run_resolves (H : Bytes → Bytes) (U : Ref → Prop) (below : Bytes → Option Bytes) (t0 t : Node) (p0 : Trie)
-    (v : Nat) (es : List Event)
+theorem run_resolves (H : Bytes → Bytes) (U : Ref → Prop) (Vok : Nat → Prop) (below : Bytes → Option Bytes) (t0 t : Node)
+    (p0 : Trie) (es : List Event)
     (hfresh : p0.cc.changes = [] ∧ p0.cc.deletes = []) (hcur : p0.db.current = [])
     (h0 : Resolves H below t0 []) (hw : WF t0) (hUt : ∀ r ∈ refs t0 [], U r)
-    (hrun : TrieRun H U v t0 es t) (hU : KeyInjOn H U) :
+    (hrun : TrieRun H U Vok t0 es t) (hU : KeyInjOn H U) :
     Resolves H (levelGet (p0.applyEvents H es) below) t [] := by
   obtain ⟨hd, hc, _, hE, hUt'⟩ := trieRun_discipline H U hU hrun hw hUt (fun x => x ∈ (refs t0 []).map (Ref.key H))
     (fun r hr => List.mem_map.mpr ⟨r, hr, rfl⟩)
@@ -251,6 +251,24 @@ theorem run_resolves (H : Bytes → Bytes) (U : Ref → Prop) (below : Bytes →
     · exact hUt' r hr
     · exact hE r hr
   rw [hU a b (hin a ha) (hin b hb) hk]
+
+/-- non-vacuity of `run_resolves`: a trie that merges one child which inserted a key reads the leaf from its own level -/
+example : ∃ es, TrieRun id (fun r => r = ⟨[], .leaf 1 [3] [65]⟩) (fun v => v = 1) .empty es (.leaf 1 [3] [65]) ∧
+    Resolves id (levelGet ((Trie.open [] .empty 1).applyEvents id es) (fun _ => none)) (.leaf 1 [3] [65]) [] := by
+  have hC : RoundEvents 1 .empty ((insertE 1 [65] .empty [] [3]).2 ++ []) (.leaf 1 [3] [65]) := by
+    apply RoundEvents.ins _ _ _ _ _ (by simp)
+    have h1 : (insertE 1 [65] .empty [] [3]).1 = .leaf 1 [3] [65] := by simp [insertE]
+    rw [h1]; exact RoundEvents.nil _
+  have hchild : TrieRun id (fun r => r = ⟨[], .leaf 1 [3] [65]⟩) (fun v => v = 1) .empty
+      (((insertE 1 [65] .empty [] [3]).2 ++ []) ++ []) (.leaf 1 [3] [65]) :=
+    TrieRun.own 1 _ _ _ _ _ rfl hC (by intro r hr; simpa [insertE, eventRefs] using hr) (TrieRun.nil _)
+  have hrun := TrieRun.merge (H := id) (U := fun r => r = ⟨[], .leaf 1 [3] [65]⟩) (Vok := fun v => v = 1) .empty (.leaf 1 [3] [65])
+    (.leaf 1 [3] [65]) (Trie.open [] .empty 1) _ [] ⟨rfl, rfl⟩ hchild (by decide) (TrieRun.nil _)
+  refine ⟨_, hrun, ?_⟩
+  apply run_resolves id _ _ (fun _ => none) .empty _ (Trie.open [] .empty 1) _ ⟨rfl, rfl⟩ rfl (by intro r h; simp [refs] at h)
+    (Or.inl rfl) (by intro r h; simp [refs] at h) hrun
+  intro a b ha hb _
+  rw [ha, hb]
 
 /-- non-vacuity of `merge_resolves_one_child` (and of `merge_resolves_partial`, `view_resolves` through it): the parent
     did nothing itself, one child inserted a key; after the merge the parent reads the leaf from its own level -/
